@@ -32,6 +32,7 @@ func runC11(c *core.Ctx) {
 	ruleCopierNoMutation(c)
 	ruleNilEntryDiscipline(c)
 	rulePublishedNotRecycled(c, "C11-R9", "pdf")
+	ruleCopierStructure(c)
 	ruleInStreamGuards(c, "C11-R8") // copied streams: dictionary strings are encrypted under the target object's key
 }
 
@@ -783,4 +784,82 @@ func selRootIdent(sel *ast.SelectorExpr) *ast.Ident {
 		return id
 	}
 	return &ast.Ident{Name: "_"}
+}
+
+// ruleCopierStructure (C11-R10): (a) "no decryption needed" for the reason
+// "not encrypted" (cryptNone) is returned only for streams without a crypt
+// context; every other ground for reusing the bytes goes through the
+// /Crypt /Identity detection.  (b) inlineFilterRefs keeps arrays
+// position-parallel: /Filter and /DecodeParms correspond element by element,
+// so every element of the input array produces exactly one element of the
+// output (no iteration may skip the store).
+func ruleCopierStructure(c *core.Ctx) {
+	c.Check("C11-R10", "pdf.streamCryptRecipe/none", "cryptNone is returned only where the stream has no crypt context", func(o *core.Ob) {
+		fn := c.Prog.Func("pdf", "streamCryptRecipe")
+		g := fn.Graph()
+		info := fn.Info()
+		x := paramObj(fn, "x")
+		none := c.Prog.Pkg("pdf").Types.Scope().Lookup("cryptNone")
+		n := 0
+		for _, r := range g.Returns() {
+			rs := r.AST.(*ast.ReturnStmt)
+			if len(rs.Results) != 2 || core.ObjOf(info, rs.Results[0]) != none {
+				continue
+			}
+			n++
+			o.Count(1)
+			o.At(fn.Site(rs, "returns cryptNone"))
+			ok := g.GuardedBy(r, func(a core.Atom) bool {
+				cmp, isCmp := a.AsCmp()
+				if !isCmp || cmp.Op != token.EQL || !core.IsNil(info, cmp.R) {
+					return false
+				}
+				sel, isSel := ast.Unparen(cmp.L).(*ast.SelectorExpr)
+				return isSel && sel.Sel.Name == "crypt" && core.ObjOf(info, sel.X) == x
+			})
+			if !ok {
+				o.FailAt(fn.Site(rs, ""), "%s: cryptNone is returned for a stream that has a crypt context: its bytes are copied still encrypted", c.Prog.Pos(rs.Pos()))
+			}
+		}
+		o.Require(n >= 1, "no return of cryptNone found")
+	})
+	c.Check("C11-R10", "pdf.inlineFilterRefs/parallel", "every element of a /Filter or /DecodeParms array yields exactly one element of the inlined array", func(o *core.Ob) {
+		fn := c.Prog.Func("pdf", "inlineFilterRefs")
+		g := fn.Graph()
+		info := fn.Info()
+		var head *core.V
+		for _, h := range loopHeads(g) {
+			if h.Cond.Range != nil {
+				head = h
+			}
+		}
+		if head == nil {
+			core.Undecided("loop over the array elements not found")
+		}
+		o.At(fn.Site(head.Cond.Range, "element loop"))
+		// stores into the output: out[i] = ... or out = append(out, ...)
+		var stores []*core.V
+		for _, v := range g.Vs {
+			as, ok := v.AST.(*ast.AssignStmt)
+			if !ok || len(as.Lhs) != 1 || !g.InLoop(v) {
+				continue
+			}
+			if ix, ok := ast.Unparen(as.Lhs[0]).(*ast.IndexExpr); ok {
+				if _, isArr := info.TypeOf(ix.X).Underlying().(*types.Slice); isArr {
+					stores = append(stores, v)
+				}
+			}
+			if call, ok := ast.Unparen(as.Rhs[0]).(*ast.CallExpr); ok {
+				if id, ok := call.Fun.(*ast.Ident); ok && id.Name == "append" {
+					stores = append(stores, v)
+				}
+			}
+		}
+		o.Require(len(stores) >= 1, "no store into the output array found")
+		o.Count(1)
+		body := succ(head, core.EdgeTrue)
+		if g.ReachFrom(body, true, core.AvoidVs(stores...))[head] {
+			o.Fail("%s: an iteration can finish without storing an element: the output array is shorter than the input and /DecodeParms no longer lines up with /Filter", c.Prog.Pos(head.Cond.Range.Pos()))
+		}
+	})
 }
